@@ -4,8 +4,8 @@ import os
 import time
 
 VERIF = '/verif'
-EVIDENCE_DIR = os.path.join(VERIF, 'evidence')
-REPLAY_DIR = os.path.join(VERIF, 'replay')
+EVIDENCE_DIR = os.environ.get('VERIF_EVIDENCE_DIR', os.path.join(VERIF, 'evidence'))
+REPLAY_DIR = os.environ.get('VERIF_REPLAY_DIR', os.path.join(VERIF, 'replay'))
 KNOWN = os.path.join(VERIF, 'known_findings.json')
 
 VERUS_TRUSTED = [
